@@ -54,7 +54,7 @@ def plan(tier, seed):
     q = tier == "quick"
     shards = []
     for part in range(6):
-        shards.append({"kind": "roundtrip", "part": part, "parts": 6, "rand_keys": 6 if q else 120, "label": "roundtrip-openssl-%d" % part})
+        shards.append({"kind": "roundtrip", "part": part, "parts": 6, "rand_keys": 16 if q else 120, "label": "roundtrip-openssl-%d" % part})
     for part in range(4 if q else 6):
         shards.append({"kind": "roundtrip", "part": part, "parts": 4 if q else 6, "rand_keys": 1 if q else 12, "bound_keys": 3 if q else 12,
                        "env": {"PYCOIN_NATIVE": "none"}, "label": "roundtrip-purepython-%d" % part})
